@@ -18,20 +18,27 @@ Theorem C02_open : forall c w k p h i x,
   o_close (step c w k (ROpenFile p)) = false.
 Proof. exact open_file_announces. Qed.
 
-(* READ_FILE: for every content, offset and limit, first the exact count, then exactly those bytes;
-   nothing else changes *)
+(* READ_FILE: for every content, every offset the filesystem can address (fs_max_offset is the largest offset lseek
+   accepts on the filesystem of the harness, regenerated with the other constants: 2^44 - 4096 on ext4) and every limit,
+   first the exact count, then exactly those bytes; nothing else changes *)
 Theorem C02_read : forall c w k X n off,
-  ro_is_file w k X -> 0 <= n -> 0 <= off < 2 ^ 63 ->
+  ro_is_file w k X -> 0 <= n -> 0 <= off <= fs_max_offset ->
   step c w k (RReadFile n off) = done w k (be32 (wrap32 (zlen (slice X off n))) ++ slice X off n).
 Proof. exact read_file_exact. Qed.
 
 (* READ_FILE_CRITICAL: the raw bytes; when they cannot all be delivered the connection ends after
    the correct prefix *)
 Theorem C02_critical : forall c w k X n off,
-  ro_is_file w k X -> 0 <= n -> 0 <= off < 2 ^ 63 ->
+  ro_is_file w k X -> 0 <= n -> 0 <= off <= fs_max_offset ->
   step c w k (RReadFileCritical n off) =
   if (n =? 0) || (off + n <=? zlen X) then done w k (slice X off n) else hangup w k (slice X off n).
 Proof. exact read_critical_exact. Qed.
+
+(* an offset lseek refuses (negative as int64, or beyond fs_max_offset) ends the connection without a byte: never data *)
+Theorem C02_offset_refused : forall c w k X n off,
+  ro_is_file w k X -> 0 <= off < 2 ^ 64 -> 2 ^ 63 <= off \/ fs_max_offset < off ->
+  step c w k (RReadFile n off) = hangup w k [] /\ step c w k (RReadFileCritical n off) = hangup w k [].
+Proof. exact read_offset_refused. Qed.
 
 (* any other request in between leaves the opened object (and its sector size) in place *)
 Theorem C02_interleave : forall c w k rq,
@@ -42,6 +49,7 @@ Proof. exact step_keeps_ro. Qed.
 Print Assumptions C02_slice_spec.
 Print Assumptions C02_open.
 Print Assumptions C02_read.
+Print Assumptions C02_offset_refused.
 Print Assumptions C02_critical.
 Print Assumptions C02_interleave.
 
